@@ -146,7 +146,16 @@ impl Header {
         let num_difat_sectors = reader.read_le_u32()?;
 
         // Some CFB implementations use FREE_SECTOR to indicate END_OF_CHAIN.
+        // As for a link inside the DIFAT chain, this is only tolerated under
+        // Permissive validation.
         if first_difat_sector == consts::FREE_SECTOR {
+            if validation.is_strict() {
+                invalid_data!(
+                    "DIFAT chain must terminate with {}, not {}",
+                    consts::END_OF_CHAIN,
+                    consts::FREE_SECTOR
+                );
+            }
             first_difat_sector = consts::END_OF_CHAIN;
         }
 
